@@ -146,6 +146,9 @@ var c03Programs = []c03Prog{
 	{``, nil, "", ""},
 	{`END { print "only end" }`, nil, "", "only end\n"},
 	{`function unused() { return 1 } BEGIN { x = 1 }`, []string{"$"}, "", ""},
+	// output through printf only (another code path to stdout than print), and mixed
+	{`{ printf("v %v\n", $) }`, nil, "", ""},
+	{`BEGIN { printf("begin\n") } { printf("a %v|", $); print "b" } ENDFILE { printf("ef\n") }`, nil, "begin\n", ""},
 }
 
 // c03Unit runs the program on a single value and returns its output (the unit of
@@ -417,9 +420,9 @@ func TestC03(t *testing.T) {
 
 	if run.CLIBinary() != "" {
 		inconclusive := 0
-		check(rec, "cli-stream", scale(10, 300), func(rt *rapid.T) {
+		check(rec, "cli-stream", scale(16, 400), func(rt *rapid.T) {
 			n := rapid.IntRange(1, 4).Draw(rt, "nvalues")
-			c := &C03CLI{Fifo: rapid.Bool().Draw(rt, "fifo"), Prog: rapid.SampledFrom([]int{0, 1, 2, 3}).Draw(rt, "prog")}
+			c := &C03CLI{Fifo: rapid.Bool().Draw(rt, "fifo"), Prog: rapid.SampledFrom([]int{0, 1, 2, 3, 9, 10, 9, 10}).Draw(rt, "prog")}
 			o := gen.DocOpts{Depth: 1, MaxItems: 3, SafeStr: true, SmallNums: true, Keys: []string{"a", "b"}}
 			for k := 0; k < n; k++ {
 				var v *jsonx.Val
